@@ -300,7 +300,7 @@ class SpecTheory(object):
                     walk(e.body(), True)
                     return
                 if z3.is_app(e):
-                    if e.decl().get_id() in by_decl and i not in seen_terms and not has_var(e):
+                    if e.decl().get_id() in by_decl and i not in seen_terms:
                         apps[i] = e
                     for c in e.children():
                         walk(c, depth_bound)
@@ -311,10 +311,37 @@ class SpecTheory(object):
                 seen_terms[i] = e
                 name = by_decl[e.decl().get_id()][0]
                 consts, body = self.defs[name]
-                inst = z3.substitute(body, *[(c, a) for c, a in zip(consts, e.children())])
-                eq = (e == inst)
-                out.append(eq)
-                new.append(inst)
+                args = e.children()
+                if not has_var(e):
+                    inst = z3.substitute(body, *[(c, a) for c, a in zip(consts, args)])
+                    out.append(e == inst)
+                    new.append(inst)
+                    continue
+                # arguments that are exactly a bound variable are generalised (quantified definitional
+                # instance with the application as pattern); any other occurrence of a binder: give up
+                qs = []
+                actual = []
+                ok = True
+                for c, a in zip(consts, args):
+                    if z3.is_var(a):
+                        q = fresh('u', a.sort())
+                        qs.append(q)
+                        actual.append(q)
+                    elif has_var(a):
+                        ok = False
+                        break
+                    else:
+                        actual.append(a)
+                if not ok:
+                    continue
+                key = (name, tuple(a.get_id() for a in actual if not any(a is q for q in qs)),
+                       tuple(k for k, a in enumerate(args) if z3.is_var(a)))
+                if key in seen_terms:
+                    continue
+                seen_terms[key] = True
+                app = e.decl()(*actual)
+                inst = z3.substitute(body, *[(c, a) for c, a in zip(consts, actual)])
+                out.append(z3.ForAll(qs, app == inst, patterns=[app]))
             frontier = new
             if not new:
                 break
@@ -423,7 +450,7 @@ class SpecEval(object):
             k = z3.simplify(to_z3(k))
             if not z3.is_int_value(k):
                 raise ContractError('tuple index must be constant')
-            return v[k.as_long()]
+            return self.resolve(v[k.as_long()])
         if isinstance(v, AV):
             if isinstance(sl, ast.Tuple):
                 idx = [as_num(self.ev(e)) for e in sl.elts]
